@@ -599,3 +599,30 @@ Proof.
   pose proof table_names_clean as T. rewrite forallb_forall in T. specialize (T e Hin).
   apply andb_true_iff in T. destruct T as [T1 T2]. destruct m; cbn [declared names_clean]; auto.
 Qed.
+
+(* the same with the connection spelled out: the PLUG side of an active connection of a listed interface is EXACTLY the
+   calling instance (byte-for-byte the name cgroupSnapNameFromPid returned: another instance of the same snap, or the
+   slot side of a connection, does not count) *)
+Theorem snap_socket_exact_instance : forall e m x u sn,
+  fst (serve e m x) = Handler -> peer x u -> u_socket u = snap_socket -> declared e m <> ASnap ->
+  x_snap_of_pid x = Some sn ->
+  exists names c,
+    (declared e m = AIfaceOpen names \/ exists k, declared e m = AIfaceAuth names k) /\
+    In c (x_conns x) /\ c_plug_snap c = sn /\ In (c_iface c) names /\
+    c_undesired c = false /\ c_hotplug_gone c = false.
+Proof.
+  intros e m x u sn H Hp Hs Hn Hsn.
+  destruct (snap_socket_only_gated e m x u H Hp Hs) as [A|(names & D & (sn' & c & S & C1 & C2 & C3 & C4 & C5))]; [contradiction|].
+  rewrite Hsn in S. inversion S; subst sn'. exists names, c. split.
+  - destruct D as [D|(k & D & _)]; [left; exact D|right; exists k; exact D].
+  - auto.
+Qed.
+
+(* and without a name for the calling process there is no snap-socket access to gated endpoints at all *)
+Theorem snap_socket_needs_snap_name : forall e m x u,
+  fst (serve e m x) = Handler -> peer x u -> u_socket u = snap_socket -> declared e m <> ASnap ->
+  x_snap_of_pid x <> None.
+Proof.
+  intros e m x u H Hp Hs Hn Hnone.
+  destruct (snap_socket_only_gated e m x u H Hp Hs) as [A|(names & _ & (sn' & c & S & _))]; [contradiction|congruence].
+Qed.
